@@ -26,7 +26,7 @@ ASSUMPTIONS = ["configurations avoid the one ambiguity of the statement: an appl
                "hop-by-hop uniqueness is judged per connection (the statement's quantifier)"]
 TIMEOUT = {"quick": 900, "thorough": 3600}
 STATES = ["none", "connected", "ready", "waiting_dwa", "disconnecting", "closed"]
-PLANS = ["prompt", "late", "dup", "unknown", "never"]
+PLANS = ["prompt", "late", "dup", "unknown", "wrong_e2e", "wrong_hbh", "never"]
 CALLBACKS = ["default", "first", "last", "seeded"]
 R1, R2 = "verif.example", "other.example"
 
@@ -251,7 +251,14 @@ class Case:
                 if plan == "unknown":
                     sp.send(M.cca(n, p["realm"], app=f.h.app, hbh=f.h.hbh ^ 0x55555, e2e=f.h.e2e ^ 0x3333))
                     h.settle()
-                if plan in ("prompt", "dup", "unknown"):
+                if plan == "wrong_e2e":
+                    # the outstanding hop-by-hop identifier with another end-to-end identifier: not "its identifiers"
+                    sp.send(M.cca(n, p["realm"], app=f.h.app, hbh=f.h.hbh, e2e=(f.h.e2e + 0x1234) & 0xffffffff))
+                    h.settle()
+                if plan == "wrong_hbh":
+                    sp.send(M.cca(n, p["realm"], app=f.h.app, hbh=f.h.hbh ^ 0x40000, e2e=f.h.e2e))
+                    h.settle()
+                if plan in ("prompt", "dup", "unknown", "wrong_e2e", "wrong_hbh"):
                     sp.send(ans)
                     if plan == "dup":
                         h.settle()
@@ -276,7 +283,7 @@ class Case:
                 if threads[ci].is_alive():
                     self.witness("caller.still_blocked", ctx)
                     continue
-                if plan in ("prompt", "dup", "unknown"):
+                if plan in ("prompt", "dup", "unknown", "wrong_e2e", "wrong_hbh"):
                     a = r.get("answer")
                     if a is None:
                         self.witness("caller.answer_not_received", ctx)
